@@ -3,15 +3,20 @@ import OnetVerif.Model.Util
 Every Go pointer a peer can leave nil is an `Option`/a `none`-like constructor here, every
 dereference of the source is a `match` — in `process` (the code as it is now) every such site
 returns an error, in `processOld` (the pinned code before the repairs) the five sites that were
-found return `Out.panic` / leave the lock counter at 1.  Anchors: `overlay.go` `Process` 79-120,
-`TransmitMsg` 129-230, `requestTree` 300-345, `handleRequestTree`/`handleSendTreeMarshal`/
-`handleSendTree`/`handleRequestRoster`/`handleSendRoster`/`handleConfigMessage` 383-560,
-`checkPendingTreeMarshal` 271-292; `tree.go` `MakeTree` 344-381; `treestorage.go` `GetRoster`;
-`treenode.go` `dispatchMsgToProtocol`, `createValueAndVerify`.
+found return `Out.panic` / leave the lock counter at 1.  Anchors: `overlay.go` `Process`,
+`TransmitMsg` (lookup with refresh, done test, creation of the instance: listing, `Set`, `getConfig`,
+`newProtocol`, on failure `nodeDelete`/`cleanTreeStorage`), `requestTree` (park, register, ask the
+sender), `checkPendingMessages` (flush), `handleRequestTree`/`handleSendTreeMarshal`/`handleSendTree`/
+`handleRequestRoster`/`handleSendRoster`/`handleConfigMessage`/`getConfig`,
+`checkPendingTreeMarshal`; `tree.go` `MakeTree`/`MakeTreeFromList`; `treestorage.go` `GetRoster`,
+`getAndRefresh`, `Set`, `Remove`; `treenode.go` `dispatchMsgToProtocol`, `aggregate`,
+`dispatchHandler`/`dispatchChannel`, `createValueAndVerify` (the instance side: `reader`).
 
 The field values are the abstraction classes of the property's quantifier: absent, zero, random,
 ids of trees/rosters the server knows (`K`), has requested but not received (`R`), does not know
-(`U`), tokens of a running and of a finished run.  Core-only. -/
+(`U`), tokens of a running and of a finished run, of a protocol the server does not have; payloads of
+every kind the receiving protocol registers (plain / aggregated, handler / channel), of a registered
+type the protocol does not handle, undecodable.  Core-only. -/
 namespace C07
 
 /-- tree ids: known, requested-not-received, unknown, the zero id -/
@@ -24,6 +29,7 @@ inductive Slot where | absent | requested | present deriving DecidableEq, Repr
 inductive Shape where
   | good | emptyChildren | unknownServer
   | other        -- a well-formed description of another structure over the same servers
+  | twoRoots     -- two top-level nodes (`len(Children) = 2`)
   deriving DecidableEq, Repr
 
 structure TM where
@@ -48,20 +54,37 @@ inductive Tok where
   | done                 -- token of the finished instance (tree K)
   | fresh (t : TRef)     -- a new run at our node of tree t
   | badNode              -- tree K, node id that is not in the tree
+  | badProto (t : TRef)  -- tree t, our node, a protocol id the server has no constructor for (one fixed token per tree)
+  | badProtoNew (t : TRef)  -- the same with a round id never seen before
   deriving DecidableEq, Repr
 
-inductive Frm where | none | member | stranger deriving DecidableEq, Repr
+/-- sender token: absent; the node the message legitimately comes from (hosted by the sending
+server); a node id that is not in the tree; a node of the tree hosted by ANOTHER server than the
+one the connection belongs to -/
+inductive Frm where | none | member | stranger | spoof deriving DecidableEq, Repr
+
+/-- payload of a protocol message.  The recording protocol of the harness registers `m3` (plain,
+handler), `m4` (plain, channel), `m1` (aggregated, handler), `m2` (aggregated, channel); `unhandled`
+is a well-formed message of a registered network type the protocol registered nothing for;
+`garbage` does not decode (random bytes / empty slice).  The type a sender ANNOUNCES in `MsgType` is
+not looked at by the receive path (`Process` takes the type of the decoded value). -/
+inductive Body where | m3 | m4 | m1 | m2 | unhandled | garbage deriving DecidableEq, Repr
+
+/-- destination of a config message (`ConfigMsg.Dest`, a token id) -/
+inductive CfgDest where
+  | run | done | fresh (t : TRef) | badProto (t : TRef)
+  | zero      -- the all-zero id
+  | junk      -- a random id (another one every time)
+  deriving DecidableEq, Repr
 
 inductive Env where
-  /-- `m3`: the payload is of the type the harness counts (its handlers' plain type); `false`: a
-  well-formed message of another registered type, whatever type the sender *announces* -/
-  | proto (to : Tok) (frm : Frm) (bodyOk : Bool) (m3 : Bool)
+  | proto (to : Tok) (frm : Frm) (body : Body)
   | reqTree (t : TRef) (v0 : Bool)
   | respTree (tm : Option TM) (ro : Option Ro)
   | treeMarshal (tm : TM)
   | reqRoster (r : RoRef)
   | sendRoster (ro : Ro)
-  | config (wellTyped : Bool)
+  | config (wellTyped : Bool) (dest : CfgDest)
   deriving Repr
 
 inductive Out where
@@ -70,9 +93,11 @@ inductive Out where
 
 structure Srv where
   slot : TRef → Slot := fun t => if t = .K then .present else if t = .R then .requested else .absent
+  /-- a removal of the tree is scheduled (`cancellations[id]`) -/
+  armed : TRef → Bool := fun _ => false
   /-- parked protocol messages per tree; the slot of R is `requested` because one message for a
   fresh run on R is parked -/
-  parked : TRef → List (Frm × Bool) := fun t => if t = .R then [(.member, true)] else []
+  parked : TRef → List (Tok × Frm × Body) := fun t => if t = .R then [(.fresh .R, .member, .m3)] else []
   /-- listed instances: the running one, the fresh one per tree -/
   run : Bool := false
   doneMark : Bool := false
@@ -80,62 +105,121 @@ structure Srv where
   other : Bool := true
   doneLive : Bool := false   -- an instance listed under the `done` token (only when it is not marked done)
   fresh : TRef → Bool := fun _ => false
+  /-- the token `badProto t` is marked finished (its creation failed once) -/
+  protoFailed : TRef → Bool := fun _ => false
+  /-- tokens of the kind `badProtoNew` marked finished -/
+  junkMarks : Nat := 0
   handed : Nat := 0          -- messages handed to an instance
-  delivered : Nat := 0       -- messages that reached a handler
+  delivered : Nat := 0       -- messages that reached a handler / a channel
   pendingTM : List TM := []
   treeLock : Nat := 0        -- `pendingTreeLock` held
   /-- roster id of the tree stored under each id: a peer may send tree t with any roster that fits its
   description, and the deprecated tree message looks rosters up through the listed instances' trees -/
   treeRo : TRef → RoRef := fun t => match t with | .K => .roK | .R => .roR | .U => .roX | .Z => .roZ
   replies : Nat := 0         -- tree / roster replies sent to the peer
+  asks : Nat := 0            -- tree / roster requests sent to the peer
+  cfgHas : CfgDest → Bool := fun _ => false   -- `pendingConfigs` (the fixed keys)
+  cfgJunk : Nat := 0                          -- `pendingConfigs` (random keys)
 
 def treeOf : Tok → TRef
   | .none => .Z | .zero => .Z | .run => .K | .done => .K | .fresh t => t | .badNode => .K
+  | .badProto t => t | .badProtoNew t => t
 
-def upd {α : Type} (f : TRef → α) (t : TRef) (v : α) : TRef → α := fun x => if x = t then v else f x
+def upd {α β : Type} [DecidableEq α] (f : α → β) (t : α) (v : β) : α → β := fun x => if x = t then v else f x
 
 /-- the roster id a description must name to fit tree t -/
 def rosterOf : TRef → RoRef
   | .K => .roK | .R => .roR | .U => .roX | .Z => .roZ
 
-/-- `TreeMarshal.MakeTree(ro)`: `none` = error -/
+/-- `TreeMarshal.MakeTree(ro)`: `false` = error -/
 def makeTree (tm : TM) (ro : Ro) : Bool :=
   ro.id = tm.ro && (tm.shape = .good || tm.shape = .other) && ro.hasList && ro.keysOk
 
+/-! ### the instance side (`treenode.go`): what the reader goroutine does with a message handed over -/
+
+def aggregated : Body → Bool | .m1 => true | .m2 => true | _ => false
+def handled : Body → Bool | .unhandled => false | .garbage => false | _ => true
+
+/-- number of children of OUR node in tree t (in U we are the root with one child, elsewhere a leaf) -/
+def nChildren : TRef → Nat | .U => 1 | _ => 0
+/-- is the legitimate sender our parent?  (in U the legitimate sender is the root itself) -/
+def memberIsParent : TRef → Bool | .U => false | _ => true
+
+/-- `dispatchMsgToProtocol`: does the message reach a handler / a channel?
+`From == nil` → refused; `aggregate`: from the parent, or a type without the aggregation flag →
+dispatched alone; otherwise queued until as many messages as we have children are there (a leaf
+never gets there; with one child the message is its own batch); then the switch over channels /
+handlers / default ("message-type not handled"); then `createValueAndVerify`: the sender must be a
+node of the tree hosted by the server the message came from. -/
+def reader (t : TRef) (frm : Frm) (b : Body) : Bool :=
+  if frm = .none then false
+  else
+    let direct := (frm = .member && memberIsParent t) || !aggregated b
+    if !direct && nChildren t ≠ 1 then false
+    else if !handled b then false
+    else frm = .member
+
+/-- is an instance listed on tree t? (`cleanTreeStorage`'s loop) -/
+def listedOn (s : Srv) : TRef → Bool
+  | .K => s.other || s.run || s.doneLive || s.fresh .K
+  | t => s.fresh t
+
+/-- `cleanTreeStorage`: schedule the removal unless an instance uses the tree -/
+def clean (s : Srv) (t : TRef) : Srv := if listedOn s t then s else { s with armed := upd s.armed t true }
+
+/-- `pi.ProcessProtocolMsg` and then the reader goroutine -/
+def handOver (s : Srv) (t : TRef) (frm : Frm) (b : Body) : Out × Srv :=
+  let s1 := { s with handed := s.handed + 1 }
+  if reader t frm b then (.ok, { s1 with delivered := s1.delivered + 1 }) else (.ignored, s1)
+
+def destOf : Tok → Option CfgDest
+  | .run => some .run | .done => some .done | .fresh t => some (.fresh t) | .badProto t => some (.badProto t)
+  | _ => none
+
+/-- creation of an instance: `Set(tree)` cancels a removal, `getConfig` takes the stored config -/
+def created (s : Srv) (to : Tok) : Srv :=
+  let s1 := { s with armed := upd s.armed (treeOf to) false }
+  match destOf to with
+  | some d => { s1 with cfgHas := upd s1.cfgHas d false }
+  | none => s1
+
 /-- the `transmitMux` region for a message whose tree is present, then the reader goroutine -/
-def deliver (s : Srv) (to : Tok) (frm : Frm) (m3 : Bool) : Out × Srv :=
-  let c := if m3 then 1 else 0
+def deliver (s : Srv) (to : Tok) (frm : Frm) (b : Body) : Out × Srv :=
   match to with
   | .none => (.ignored, s)                       -- unreachable: refused before
-  | .done =>
-    if s.doneMark then (.ignored, s)             -- finished instance: dropped
-    else
-      let s1 := { s with doneLive := true, handed := s.handed + c }
-      (match frm with
-       | .member => (.ok, { s1 with delivered := s1.delivered + c })
-       | _ => (.ignored, s1))
-  | .badNode => (.ignored, s)                    -- "No TreeNode defined in this tree here"
   | .zero => (.ignored, s)                       -- tree Z is never present
+  | .badNode => (.ignored, s)                    -- "No TreeNode defined in this tree here"
+  | .done =>
+    if s.doneMark then (.ignored, clean s .K)    -- finished instance: dropped, removal scheduled again
+    else if s.doneLive then handOver s .K frm b
+    else handOver { created s .done with doneLive := true } .K frm b
   | .run =>
-    let s1 := { s with run := true, handed := s.handed + c }
-    (match frm with
-     | .member => (.ok, { s1 with delivered := s1.delivered + c })
-     | _ => (.ignored, s1))                      -- missing / foreign sender: refused by the instance
+    if s.run then handOver s .K frm b
+    else handOver { created s .run with run := true } .K frm b
   | .fresh t =>
-    let s1 := { s with fresh := upd s.fresh t true, handed := s.handed + c }
-    (match frm with
-     | .member => (.ok, { s1 with delivered := s1.delivered + c })
-     | _ => (.ignored, s1))
+    if s.fresh t then handOver s t frm b
+    else handOver { created s (.fresh t) with fresh := upd s.fresh t true } t frm b
+  | .badProto t =>
+    if s.protoFailed t then (.ignored, clean s t)   -- marked finished by the failed creation
+    else
+      -- listed, `Set`, `getConfig`, `newProtocol` fails → `nodeDelete`: unlisted, `cleanTreeStorage`, marked
+      (.ignored, clean { created s (.badProto t) with protoFailed := upd s.protoFailed t true } t)
+  | .badProtoNew t =>
+    (.ignored, clean { created s (.badProtoNew t) with junkMarks := s.junkMarks + 1 } t)
 
-/-- `RegisterTree` of a received tree: store it and flush what was parked for it (the harness
-parks only `fresh t` messages from a member) -/
+/-- `TransmitMsg` for a message whose tree is present: `getAndRefresh` cancels a scheduled removal -/
+def transmitFound (s : Srv) (to : Tok) (frm : Frm) (b : Body) : Out × Srv :=
+  deliver { s with armed := upd s.armed (treeOf to) false } to frm b
+
+/-- `checkPendingMessages`: every parked message of the tree goes through `TransmitMsg` again, in order -/
+def flush (s : Srv) : List (Tok × Frm × Body) → Srv
+  | [] => s
+  | (to, frm, b) :: l => flush (transmitFound s to frm b).2 l
+
+/-- `RegisterTree` of a received tree: `Set`, then flush what was parked for it -/
 def storeAndFlush (s : Srv) (t : TRef) (r : RoRef) : Srv :=
-  let l := s.parked t
-  let h := (l.filter (fun x => x.2)).length                          -- handed to the (new) instance
-  let d := (l.filter (fun x => x.2 && x.1 == .member)).length        -- accepted by the sender check
-  { s with slot := upd s.slot t .present, parked := upd s.parked t [], treeRo := upd s.treeRo t r,
-           fresh := if l.isEmpty then s.fresh else upd s.fresh t true,
-           handed := s.handed + h, delivered := s.delivered + d }
+  flush { s with slot := upd s.slot t .present, armed := upd s.armed t false,
+                 parked := upd s.parked t [], treeRo := upd s.treeRo t r } (s.parked t)
 
 /-- `handleSendTree` -/
 def sendTree (s : Srv) (tm : Option TM) (ro : Option Ro) : Out × Srv :=
@@ -150,23 +234,23 @@ def sendTree (s : Srv) (tm : Option TM) (ro : Option Ro) : Out × Srv :=
       else if makeTree tm ro then (.ok, storeAndFlush s tm.id ro.id)
       else (.ignored, s)
 
-/-- is a roster with that id known through a listed instance (`handleSendTreeMarshal`'s loop)? -/
+/-- is a roster with that id known through a listed instance's tree (`handleSendTreeMarshal`'s loop)? -/
 def instanceRoster (s : Srv) (r : RoRef) : Bool :=
-  (r = s.treeRo .K && (s.other || s.run || s.doneLive || s.fresh .K)) ||
+  (r = s.treeRo .K && listedOn s .K) ||
   (r = s.treeRo .R && s.fresh .R) || (r = s.treeRo .U && s.fresh .U) || (r = s.treeRo .Z && s.fresh .Z)
 
 /-- one envelope on the code as it is now -/
 def process (s : Srv) : Env → Out × Srv
-  | .proto to frm bodyOk m3 =>
-    if !bodyOk then (.ignored, s)                                   -- `Unwrap`: undecodable body
+  | .proto to frm b =>
+    if b = .garbage then (.ignored, s)                              -- `Unwrap`: undecodable body
     else if to = .none then (.ignored, s)                           -- no destination token
     else
       let t := treeOf to
-      if s.slot t = .present then deliver s to frm m3
+      if s.slot t = .present then transmitFound s to frm b
       else
-        -- `requestTree`: park, re-check, register and ask the peer
-        let s1 := { s with parked := upd s.parked t (s.parked t ++ [(frm, m3)]) }
-        if s1.slot t = .absent then (.ok, { s1 with slot := upd s1.slot t .requested })
+        -- `getAndRefresh` misses; `requestTree`: park, re-check, register and ask the peer
+        let s1 := { s with armed := upd s.armed t false, parked := upd s.parked t (s.parked t ++ [(to, frm, b)]) }
+        if s1.slot t = .absent then (.ok, { s1 with slot := upd s1.slot t .requested, asks := s1.asks + 1 })
         else (.ok, s1)
   | .reqTree t _ =>
     if s.slot t = .present then (.ok, { s with replies := s.replies + 1 }) else (.ignored, s)
@@ -175,7 +259,7 @@ def process (s : Srv) : Env → Out × Srv
     if tm.id = .Z then (.ignored, s)
     else if s.slot tm.id ≠ .requested then (.ignored, s)
     else if instanceRoster s tm.ro then sendTree s (some tm) (some ⟨tm.ro, true, true⟩)
-    else (.ok, { s with pendingTM := s.pendingTM ++ [tm] })        -- and asks the peer for the roster
+    else (.ok, { s with pendingTM := s.pendingTM ++ [tm], asks := s.asks + 1 })   -- asks the peer for the roster
   | .reqRoster _ => (.ok, { s with replies := s.replies + 1 })     -- the roster, or an empty one
   | .sendRoster ro =>
     if ro.id = .roZ then (.ignored, s)
@@ -187,7 +271,10 @@ def process (s : Srv) : Env → Out × Srv
         else if makeTree tm ro then storeAndFlush acc tm.id ro.id else acc) s
       -- the used descriptions are dropped (`delete(o.pendingTreeMarshal, el.ID)`)
       (.ok, { s' with treeLock := 0, pendingTM := s'.pendingTM.filter (fun tm => tm.ro ≠ ro.id) })
-  | .config _ => (.ok, s)
+  | .config wellTyped d =>
+    if !wellTyped then (.ignored, s)                                -- "Wrong config type"
+    else if d = .junk then (.ok, { s with cfgJunk := s.cfgJunk + 1 })
+    else (.ok, { s with cfgHas := upd s.cfgHas d true })
 
 /-- tokens for which the overlay hands the message to an (existing or new) instance -/
 def creates : Tok → Bool
@@ -195,12 +282,12 @@ def creates : Tok → Bool
 
 /-- the pinned code before the repairs: the five crash / lock-leak sites -/
 def processOld (s : Srv) : Env → Out × Srv
-  | .proto to frm bodyOk m3 =>
-    if !bodyOk then (.ignored, s)
+  | .proto to frm b =>
+    if b = .garbage then (.ignored, s)
     else if to = .none then (.panic, s)                             -- `onetMsg.To.TreeID`
     else if frm = .none && s.slot (treeOf to) = .present && creates to then
       (.panic, s)                                                   -- reader: `onetMsg.From.TreeNodeID`
-    else process s (.proto to frm bodyOk m3)
+    else process s (.proto to frm b)
   | .respTree (some tm) (some ro) =>
     if tm.id ≠ .Z ∧ s.slot tm.id ≠ .absent ∧ ro.id = tm.ro ∧ tm.shape = .emptyChildren then
       (.panic, s)                                                   -- `tm.Children[0]`
@@ -234,16 +321,32 @@ def roref : String → Option RoRef
   | "roK" => some .roK | "roR" => some .roR | "roX" => some .roX | "roZ" => some .roZ | _ => none
 def shape : String → Option Shape
   | "good" => some .good | "empty" => some .emptyChildren | "unksrv" => some .unknownServer
-  | "other" => some .other | _ => none
+  | "other" => some .other | "two" => some .twoRoots | _ => none
 def tok : String → Option Tok
   | "none" => some .none | "zero" => some .zero | "run" => some .run | "done" => some .done
   | "badnode" => some .badNode
   | "freshK" => some (.fresh .K) | "freshR" => some (.fresh .R) | "freshU" => some (.fresh .U)
+  | "badprotoK" => some (.badProto .K) | "badprotoR" => some (.badProto .R) | "badprotoU" => some (.badProto .U)
+  | "badprotonewK" => some (.badProtoNew .K) | "badprotonewR" => some (.badProtoNew .R)
+  | "badprotonewU" => some (.badProtoNew .U)
   | _ => none
 def frm : String → Option Frm
-  | "none" => some .none | "member" => some .member | "stranger" => some .stranger | _ => none
+  | "none" => some .none | "member" => some .member | "stranger" => some .stranger
+  | "spoof" => some .spoof | _ => none
+/-- payload token: `1` the plain handler type, `0` random bytes, `2` a message of the plain channel type
+announced as the handler type; `m1`..`m4` the four registered kinds, `unh` a registered type the
+protocol does not handle, `empty` a zero-length payload -/
+def body : String → Option Body
+  | "1" => some .m3 | "0" => some .garbage | "2" => some .m4
+  | "m1" => some .m1 | "m2" => some .m2 | "m3" => some .m3 | "m4" => some .m4
+  | "unh" => some .unhandled | "empty" => some .garbage | _ => none
 def bool : String → Option Bool
   | "1" => some true | "0" => some false | _ => none
+def cfgDest : String → Option CfgDest
+  | "run" => some .run | "done" => some .done
+  | "freshK" => some (.fresh .K) | "freshR" => some (.fresh .R) | "freshU" => some (.fresh .U)
+  | "badprotoK" => some (.badProto .K) | "badprotoR" => some (.badProto .R) | "badprotoU" => some (.badProto .U)
+  | "zero" => some .zero | "junk" => some .junk | _ => none
 
 def tm? (a b c : String) : Option TM := do
   let i ← tref a; let r ← roref b; let sh ← shape c
@@ -263,17 +366,29 @@ def ro? (r l : String) : Option Ro := do
   | "4" => pure ⟨id, true, true⟩
   | _ => none
 
-def showSlot : Slot → String
-  | .absent => "absent" | .requested => "requested" | .present => "present"
+def showSlot (x : Srv) (t : TRef) : String :=
+  (match x.slot t with
+   | .absent => "absent" | .requested => "requested" | .present => "present") ++ (if x.armed t then "+a" else "")
+
+def b2n (b : Bool) : Nat := if b then 1 else 0
+
+def cfgCount (x : Srv) : Nat :=
+  b2n (x.cfgHas .run) + b2n (x.cfgHas .done) + b2n (x.cfgHas (.fresh .K)) + b2n (x.cfgHas (.fresh .R)) +
+  b2n (x.cfgHas (.fresh .U)) + b2n (x.cfgHas (.fresh .Z)) + b2n (x.cfgHas (.badProto .K)) +
+  b2n (x.cfgHas (.badProto .R)) + b2n (x.cfgHas (.badProto .U)) + b2n (x.cfgHas (.badProto .Z)) +
+  b2n (x.cfgHas .zero) + x.cfgJunk
+
+def marks (x : Srv) : Nat :=
+  b2n x.doneMark + b2n (x.protoFailed .K) + b2n (x.protoFailed .R) + b2n (x.protoFailed .U) + b2n (x.protoFailed .Z) + x.junkMarks
 
 def obs (o : Out) (x : Srv) : String :=
   if o = .panic then "panic" else
-  let live := (if x.run then 1 else 0) + (if x.doneLive then 1 else 0) + (if x.fresh .K then 1 else 0) + (if x.fresh .R then 1 else 0) + (if x.fresh .U then 1 else 0)
-  s!"K={showSlot (x.slot .K)} R={showSlot (x.slot .R)} U={showSlot (x.slot .U)} Z={showSlot (x.slot .Z)} parked={(x.parked .K).length + (x.parked .R).length + (x.parked .U).length + (x.parked .Z).length} live={live} handed={x.handed} delivered={x.delivered} replies={x.replies} lock={x.treeLock}"
+  let live := b2n x.run + b2n x.doneLive + b2n (x.fresh .K) + b2n (x.fresh .R) + b2n (x.fresh .U)
+  s!"K={showSlot x .K} R={showSlot x .R} U={showSlot x .U} Z={showSlot x .Z} parked={(x.parked .K).length + (x.parked .R).length + (x.parked .U).length + (x.parked .Z).length} live={live} handed={x.handed} delivered={x.delivered} replies={x.replies} sent={x.replies + x.asks} ptm={x.pendingTM.length} cfg={cfgCount x} marks={marks x} lock={x.treeLock}"
 
 def parse : List String → Option Env
-  | ["proto", t, f, "2"] => do pure (.proto (← tok t) (← frm f) true false)
-  | ["proto", t, f, b] => do pure (.proto (← tok t) (← frm f) (← bool b) true)
+  | ["proto", t, f, b] => do pure (.proto (← tok t) (← frm f) (← body b))
+  | ["reqtree", t, "2"] => do pure (.reqTree (← tref t) false)   -- a version from the future
   | ["reqtree", t, v] => do pure (.reqTree (← tref t) (← bool v))
   | ["resptree", "-", "-"] => some (.respTree none none)
   | ["resptree", "-", r, l] => do pure (.respTree none (some (← ro? r l)))
@@ -282,8 +397,16 @@ def parse : List String → Option Env
   | ["treemarshal", a, b, c] => do pure (.treeMarshal (← tm? a b c))
   | ["reqroster", r] => do pure (.reqRoster (← roref r))
   | ["sendroster", r, l] => do pure (.sendRoster (← ro? r l))
-  | ["config", w] => do pure (.config (← bool w))
+  | ["config", w] => do pure (.config (← bool w) (.fresh .K))
+  | ["config", w, d] => do pure (.config (← bool w) (← cfgDest d))
   | _ => none
+
+/-- the envelopes of a `storm n`: n rounds of a protocol message for a protocol the server does not have
+(lists an instance and unlists it again) and a deprecated tree message for the requested tree with a
+description without nodes (looks through the listed instances and is refused) -/
+def stormEnvs : Nat → List Env
+  | 0 => []
+  | n + 1 => .proto (.badProtoNew .K) .member .m3 :: .treeMarshal ⟨.R, .roK, .emptyChildren⟩ :: stormEnvs n
 
 /-- `state <idle|midrun|afterdone> <mode>` sets up the server state; every other line is one envelope -/
 def step (st : State) (toks : List String) : State × String :=
@@ -291,6 +414,10 @@ def step (st : State) (toks : List String) : State × String :=
   | ["state", "idle", _] => ({ s := {} }, "ok")
   | ["state", "midrun", _] => ({ s := { run := true, handed := 1, delivered := 1 } }, "ok")
   | ["state", "afterdone", _] => ({ s := { doneMark := true, handed := 1, delivered := 1 } }, "ok")
+  | ["storm", n] =>
+    match n.toNat? with
+    | some n => let x := runEnvs st.s (stormEnvs n); ({ s := x }, obs .ok x)
+    | none => (st, "bad-op")
   | _ =>
     match parse toks with
     | some e => let r := process st.s e; ({ s := r.2 }, obs r.1 r.2)
